@@ -20,8 +20,11 @@ defs, in other call bodies; `caller.body(…)` evaluated any number of times.** 
 (mako exports those to the outer `caller` as well), two defs of the same name in one scope – for those the frame-level
 theorems of C13 hold and the behaviour is compared on every run – and the places where mako's generated code deviates
 from the specification, which are recorded findings (see the `…_counterexample` theorems): `<% return %>` inside a
-buffering def (F-C05-2), `caller.x()` inside the argument list of a `<%call expr>` (F-C05-1), `caller` used by a def
-written inside a `<%call>` whose enclosing scope already knows the name `caller` (F-C05-3: flag `cv` of the guard).
+buffering def (F-C05-2), and `caller.x()` inside the argument list of a `<%call expr>` (what remains of F-C05-1: a def
+called by name while the caller is pending takes it for its own).  The flag `cv` of the guard only marks defs written
+inside a `<%call>` that do not mention `caller` (their `caller` variable is the enclosing `ccall` parameter); since
+/repo 0522f73 it excludes nothing a template can contain.  Repaired in /repo and now inside the guard: a `<%call>`
+run during the argument evaluation of another call (555117c), `caller` in defs written inside a `<%call>` (0522f73).
 
 All theorems quantify over every template set, every crash point `k`, every fuel and every start state related
 to the specification's arguments (`RelC` / `RelW`; true of the initial state, preserved by every execution).
@@ -125,23 +128,31 @@ theorem def_call_refines_spec_counterexample_return :
   revert this
   decide
 
-/-- … `caller.body()` inside the argument list of a `<%call expr>` (finding F-C05-1): the nested `<%call>` it runs
-    resets `nextcaller`, the outer callee has no `caller` (exception 2 = `'NoneType' object has no attribute 'body'`),
-    where the specification renders `{O(B)[F]}` -/
-theorem def_call_refines_spec_counterexample_call_expr :
-    GoodTop quirkCallExpr = false ∧
-    (render (progOf [(quirkCallExpr, none)] 99) ⟨none, false⟩ 200).1 = .exc excNoCaller ∧
-    (render (progOf [(quirkCallExpr, none)] 99) ⟨none, false⟩ 200).2.1 = "{O(B)[".toList ∧
-    (Spec.render ⟨[(quirkCallExpr, none)], 99⟩ ⟨none, false⟩ 200).1 = .val [] ∧
-    (Spec.render ⟨[(quirkCallExpr, none)], 99⟩ ⟨none, false⟩ 200).2 = "{O(B)[F]}".toList := by
+/-- … and `caller.x()` inside the argument list of a `<%call expr>` (what remains of finding F-C05-1): while the
+    arguments are evaluated the caller is pending, and a def called by name in the meantime – here `d2()` from the
+    content that `caller.body()` renders – takes it for its own (`(F)`), where the specification (and the
+    documentation: `d2` is called without content) has no caller (exception 2) -/
+theorem def_call_refines_spec_counterexample_pending_leak :
+    GoodTop quirkLeak = false ∧
+    (render (progOf [(quirkLeak, none)] 99) ⟨none, false⟩ 200).1 = .val [] ∧
+    (render (progOf [(quirkLeak, none)] 99) ⟨none, false⟩ 200).2.1 = "{O(F)[F]}".toList ∧
+    (Spec.render ⟨[(quirkLeak, none)], 99⟩ ⟨none, false⟩ 200).1 = .exc excNoCaller ∧
+    (Spec.render ⟨[(quirkLeak, none)], 99⟩ ⟨none, false⟩ 200).2 = "{O(".toList := by
   refine ⟨by decide, by decide +kernel, by decide +kernel, by decide +kernel, by decide +kernel⟩
 
-/-- … and a def nested in a `<%call>` inside a def that itself mentions `caller` (finding F-C05-3): the nested def's
-    `caller` is the *enclosing* def's (the `ccall(caller)` parameter), not the one of its own call -/
-theorem def_call_refines_spec_counterexample_nested_def :
-    GoodTop quirkNested = false ∧
-    (render (progOf [(quirkNested, none)] 99) ⟨none, false⟩ 200).2.1 = "{T|[iT]}".toList ∧
-    (Spec.render ⟨[(quirkNested, none)], 99⟩ ⟨none, false⟩ 200).1 = .exc excNoCaller ∧
+/-- regression (repaired F-C05-1, /repo 555117c): a `<%call>` run while an outer call with content is still collecting
+    its arguments saves the pending caller and puts it back – the outer callee finds its `caller`; both renderers
+    agree on the former witness -/
+example : (render (progOf [(quirkCallExpr, none)] 99) ⟨none, false⟩ 200).2.1 = "{O(B)[F]}".toList ∧
+    (Spec.render ⟨[(quirkCallExpr, none)], 99⟩ ⟨none, false⟩ 200).2 = "{O(B)[F]}".toList := by
+  refine ⟨by decide +kernel, by decide +kernel⟩
+
+/-- regression (repaired F-C05-3, /repo 0522f73): a def written inside a `<%call>` that uses `caller` takes the caller
+    of its own call, whether or not the enclosing def mentions `caller`: the former witness is now inside the guard and
+    both renderers agree (`d5` is called without content: no caller) -/
+example : GoodTop quirkNested = true ∧
+    (render (progOf [(quirkNested, none)] 99) ⟨none, false⟩ 200).1 = .exc excNoCaller ∧
+    (render (progOf [(quirkNested, none)] 99) ⟨none, false⟩ 200).2.1 = "{T|[i".toList ∧
     (Spec.render ⟨[(quirkNested, none)], 99⟩ ⟨none, false⟩ 200).2 = "{T|[i".toList := by
   refine ⟨by decide, by decide +kernel, by decide +kernel, by decide +kernel⟩
 
@@ -309,12 +320,12 @@ example : (render (progOf [(sampleCalls, none)] 99) ⟨none, false⟩ 200).2.1
 /-- **After a call, `caller` is what it was before** – for *every* construct of *every* template (no guard: nested
     calls, calls in loops, calls from other defs, blocks, includes, cached defs …), on every exit path: the caller
     stack is the same, the activation's own `caller` locals were never touched, so `caller` denotes the same
-    namespace; `nextcaller` is as before or `None`. -/
+    namespace; and the pending `nextcaller` is exactly as before (a `<%call>` saves and restores it). -/
 theorem caller_restored_after_call (ts : List (Tmpl × Option Bool)) (k : Nat) (sc : Scope) (t : Tmpl)
     (fuel : Nat) (l : Loc) (σ : St) (hl : LocOK l) (hσ : StOK σ) (i : Nat) (topc : Str) (rest : List (Nat × Str))
     (hb : σ.bufs = (i, topc) :: rest) (hw : l.writer = i) (o : Outcome) (l' : Loc) (σ' : St)
     (he : exec (progOf ts k) fuel (stmts sc t) l σ = (o, l', σ')) (ho : o ≠ .timeout) :
-    callerView l' σ' = callerView l σ ∧ σ'.frames = σ.frames ∧ (σ'.next = σ.next ∨ σ'.next = []) := by
+    callerView l' σ' = callerView l σ ∧ σ'.frames = σ.frames ∧ σ'.next = σ.next := by
   have g := (all_good _ (codegen_cfg_ok ts k) fuel).exec _ l σ i topc rest ((emits t).stmts sc) hl hσ hb hw o l' σ' he ho
   have kp := (exec_keeps_lex (progOf ts k) fuel).1 _ l σ _ l' σ' he
   exact ⟨by simp [callerView, kp.1, kp.2.1, g.1.frames], g.1.frames, g.1.next⟩
@@ -323,7 +334,7 @@ theorem caller_restored_after_call (ts : List (Tmpl × Option Bool)) (k : Nat) (
 theorem caller_restored_after_call_expression (ts : List (Tmpl × Option Bool)) (k : Nat) (e : Expr)
     (fuel : Nat) (l : Loc) (σ : St) (hl : LocOK l) (hσ : StOK σ) (hne : σ.bufs ≠ []) (r : VRes) (σ' : St)
     (he : eval (progOf ts k) fuel e l σ = (r, σ')) (hr : r ≠ .timeout) :
-    callerView l σ' = callerView l σ ∧ σ'.frames = σ.frames ∧ (σ'.next = σ.next ∨ σ'.next = []) := by
+    callerView l σ' = callerView l σ ∧ σ'.frames = σ.frames ∧ σ'.next = σ.next := by
   obtain ⟨⟨i, topc⟩, rest, hb⟩ := List.exists_cons_of_ne_nil hne
   have g := (all_good _ (codegen_cfg_ok ts k) fuel).eval e l σ i topc rest hl hσ hb r σ' he hr
   exact ⟨by simp [callerView, g.frames], g.frames, g.next⟩
